@@ -169,10 +169,26 @@ def _(c):
             up = [n.lineno for n in ast.walk(fn) if isinstance(n, ast.Call) and ast.unparse(n.func) == 'm.update_entries_for_directory']
             uses = [ast.unparse(n) for n in ast.walk(fn) if isinstance(n, (ast.Call, ast.Assign))
                     and ('set_timestamp' in ast.unparse(n) or ast.unparse(n).startswith('ts.ts ='))]
-            if len(ts) != 1 or len(up) != 1 or not ts[0] < up[0] or any('start_ts' not in u for u in uses):
+            # what is written is start_ts itself, not a value derived from it (max with the old entry, rounding, ...)
+            if len(ts) != 1 or len(up) != 1 or not ts[0] < up[0] or any(u not in ('m.set_timestamp(start_ts)', 'ts.ts = start_ts') for u in uses):
                 bad.append((q, ts, up, uses))
         return not bad, {'bad': bad}
     c.const('timestamp-is-taken-before-the-scan-starts', start_ts_before_scan, props=['C11'])
+
+    def subdir_update_keeps_timestamp(repo):
+        """UpdateCommand: every statement that sets or refreshes the TIMESTAMP sits in the else-part of `if relpath != '': pass`"""
+        fn = _fn(repo, 'UpdateCommand.__call__', 'gemato/cli.py')
+        guards = [n for n in ast.walk(fn) if isinstance(n, ast.If) and ast.unparse(n.test) == "relpath != ''"
+                  and all(isinstance(b, ast.Pass) or (isinstance(b, ast.Expr) and isinstance(b.value, ast.Constant)) for b in n.body)]
+        def touches(n):
+            t = ast.unparse(n)
+            return (isinstance(n, ast.Call) and ast.unparse(n.func).endswith('set_timestamp')) or \
+                (isinstance(n, (ast.Assign, ast.AugAssign)) and t.split('=')[0].strip().endswith('.ts'))
+        all_uses = [n for n in ast.walk(fn) if touches(n)]
+        guarded = [n for g in guards for o in g.orelse for n in ast.walk(o) if touches(n)]
+        ok = len(guards) == 1 and len(all_uses) >= 2 and len(all_uses) == len(guarded)
+        return ok, {'guards': len(guards), 'timestamp statements': [ast.unparse(n) for n in all_uses], 'under the guard': len(guarded)}
+    c.const('sub-directory-update-leaves-the-timestamp-alone', subdir_update_keeps_timestamp, props=['C10'])
 
 
 @contract('gemato/manifest.py', '<codec-tables>', props=['C08', 'C09'])
@@ -232,7 +248,7 @@ def _(c):
     c.const('encoder-widths-and-thresholds', widths, props=['C08'])
 
 
-@contract(RL, '<path-tests>', props=['C10', 'C01', 'C06'])
+@contract(RL, '<path-tests>', props=['C10', 'C01', 'C06', 'C03', 'C12'])
 def _(c):
     c.trusted = True
 
@@ -253,7 +269,7 @@ def _(c):
                 if r in ('path', 'fullpath', 'relpath', 'fpath', 'dirpath', 'mpath', 'mdir'):
                     bad.append((node.lineno, ast.unparse(node)))
         return not bad, {'bad': bad}
-    c.const('directory-containment-only-by-whole-components', only_component_prefix_tests, props=['C10', 'C01'])
+    c.const('directory-containment-only-by-whole-components', only_component_prefix_tests, props=['C10', 'C01', 'C03', 'C12'])
 
     def unregistered_scan_reraises(repo):
         """load_unregistered_manifests swallows an OSError only when it carries no errno (bz2's 'invalid data'),
@@ -287,7 +303,7 @@ def h_body_is(handler, text):
     return '\n'.join(ast.unparse(s) for s in handler.body if not (isinstance(s, ast.Expr) and isinstance(s.value, ast.Constant))) == text
 
 
-@contract(RL, '<rename-block>', props=['C13'])
+@contract(RL, '<rename-block>', props=['C13', 'C14'])
 def _(c):
     c.trusted = True
 
@@ -312,6 +328,24 @@ def _(c):
         calls = [ast.unparse(n) for n in ast.walk(fn) if isinstance(n, ast.Call)]
         return rets == ['f.buffer.tell()'] and 'f.flush()' in calls, {'returns': rets}
     c.const('watermark-compares-the-uncompressed-size', size_is_uncompressed)
+
+    def top_level_name_first(repo):
+        """save_manifest signs exactly the Manifest named top_level_manifest_filename (proved site obligation of its contract),
+        so a renamed top-level Manifest must carry the new name *before* it is written under it"""
+        fn = _fn(repo, 'ManifestRecursiveLoader.save_manifests')
+        blocks = [n for n in ast.walk(fn) if isinstance(n, ast.If) and ast.unparse(n.test) == 'want_compr is not None and is_compr != want_compr']
+        if len(blocks) != 1:
+            return False, {'rename blocks': len(blocks)}
+        texts = [ast.unparse(st) for st in blocks[0].body]
+        saves = [i for i, t in enumerate(texts) if t == 'self.save_manifest(new_mpath)']
+        switch = [i for i, st in enumerate(blocks[0].body) if isinstance(st, ast.If)
+                  and ast.unparse(st.test) == 'mpath == self.top_level_manifest_filename'
+                  and [ast.unparse(x) for x in st.body] == ['self.top_level_manifest_filename = new_mpath'] and not st.orelse]
+        other_saves = [ast.unparse(n) for n in ast.walk(fn) if isinstance(n, ast.Call) and ast.unparse(n.func) == 'self.save_manifest']
+        ok = len(saves) == 1 and len(switch) == 1 and switch[0] < saves[0] \
+            and sorted(other_saves) == ['self.save_manifest(mpath, sort=sort)', 'self.save_manifest(new_mpath)']
+        return ok, {'statements of the rename block': texts, 'save_manifest calls': other_saves}
+    c.const('top-level-name-is-switched-before-the-renamed-manifest-is-saved', top_level_name_first, props=['C14'])
 
 
 # --------------------------------------------------------------------------
